@@ -17,6 +17,9 @@ for d in $S/seeded/*/; do
   if ! git apply --check $d/patch.diff 2>/dev/null; then echo "$id: PATCH-DOES-NOT-APPLY (tree has moved on)"; continue; fi
   git apply $d/patch.diff
   cd $S && ./check $pid --tier quick > /tmp/regress_$id.log 2>&1; rc=$?
-  echo "$id: rc=$rc $(grep -c VIOLATION /tmp/regress_$id.log) violation line(s) $(grep -m1 -o "harness=[A-Za-z0-9_]*" /tmp/regress_$id.log) $(grep -m1 CHECK-ERROR /tmp/regress_$id.log | cut -c1-150)"
+  line="$id: rc=$rc $(grep -c VIOLATION /tmp/regress_$id.log) violation line(s) $(grep -o "harness=[A-Za-z0-9_]*" /tmp/regress_$id.log | sort -u | tr '\n' ' ') $(grep -m1 CHECK-ERROR /tmp/regress_$id.log | cut -c1-150)"
+  echo "$line"
+  # coverage record kept with the seeded changes (one line per change, latest run wins)
+  if [ -n "${COVERAGE_OUT:-}" ]; then grep -v "^$id:" "$COVERAGE_OUT" 2>/dev/null > "$COVERAGE_OUT.tmp"; echo "$line" >> "$COVERAGE_OUT.tmp"; sort "$COVERAGE_OUT.tmp" > "$COVERAGE_OUT"; rm -f "$COVERAGE_OUT.tmp"; fi
 done
 cd /repo && git worktree remove --force $W; rm -rf $S
